@@ -195,6 +195,12 @@ def run(facts, chk, tier, only=None):
         zp = [(bb, t) for bb, t in wv.calls() if (t.callee.name or '').endswith('Iterator::zip') and 'IdxCheckIter' in (t.callee.full or '')]
         ok_z = len(zp) == 1 and any(x[0] == 'call' and x[1].endswith('outer_iter') for x in subexprs(ebt.operand(zp[0][1].args[0])))
         res.append(('transpose', tr and ok_z, 'positions = outer_iter of the transposed alignment array, zipped with IdxCheck'))
+        # recognised layout: one add_contig / add_sample_name call inside a `for` over the field; a fold / map / helper is "not recognised"
+        # (the header content and order are decided end to end by C05.e2e:vcf)
+        if len(ac) != 1 or len(asn) != 1:
+            raise AnchorLost('write_vcf: %d add_contig / %d add_sample_name calls in the function body (header built elsewhere)' % (len(ac), len(asn)))
+        if not any(wv.dominates(bb, ac[0][0]) for bb, t, e in its) or not any(wv.dominates(bb, asn[0][0]) for bb, t, e in its):
+            raise AnchorLost('write_vcf: header calls are not inside a for loop')
         res.append(('header-contigs', len(ac) == 1 and loop_source(ac[0][0], names_idx), 'header contigs iterate chrom_names in order'))
         res.append(('header-samples', len(asn) == 1 and loop_source(asn[0][0], mn_idx), 'header samples iterate mapped_names in order'))
         return res
